@@ -254,7 +254,8 @@ class Acceptor:
                 self.problems.append(f"{path}.{k}: value {x!r} not in {hs[names[0]]!r}")
                 ok = False
         for name, (key, has_default, _) in table.items():
-            if self.fw == "base" and type(None) in typing.get_args(hs[name]):
+            if self.fw == "base" and (type(None) in typing.get_args(hs[name]) or hs[name] is type(None)):
+                # (Optional[None] evaluates to NoneType itself)
                 continue     # the plain generator emits annotations only: Optional[...] marks what may be absent
             if not has_default and name not in used:
                 self.problems.append(f"{path}: required field {name} of {q} absent")
